@@ -6,7 +6,7 @@ Local Open Scope N_scope.
 Definition kframe (s s' : st) : Prop :=
   s_queue s' = s_queue s /\ s_resp s' = s_resp s /\ g_parts s' = g_parts s /\ g_from s' = g_from s /\
   g_done s' = g_done s /\ h_open s' = h_open s /\ g_rj s' = g_rj s /\ s_max s' = s_max s /\
-  h_ndid s' = h_ndid s /\ g_ddone s' = g_ddone s.
+  h_ndid s' = h_ndid s /\ g_ddone s' = g_ddone s /\ h_destroying s' = h_destroying s.
 
 Lemma kframe_refl s : kframe s s.
 Proof. unfold kframe; repeat split; reflexivity. Qed.
